@@ -67,14 +67,15 @@ def insert_knot(obj, param, num, **kwargs):
                 raise GeomdlException('Number of insertions must be a positive integer value',
                                       data=dict(idx=idx, num=val))
 
-    # Use the existing knot value when the parameter coincides with a knot
+    # Use the existing knot value when the parameter coincides with a knot; after that the multiplicities can be counted
+    # exactly (distinct knots which are closer to each other than the tolerance are not copies of one knot)
     param = ops.snap_params_to_knots(obj, param)
 
     # Start curve knot insertion
     if isinstance(obj, abstract.Curve):
         if param[0] is not None and num[0] > 0:
             # Find knot multiplicity
-            s = helpers.find_multiplicity(param[0], obj.knotvector)
+            s = helpers.find_multiplicity(param[0], obj.knotvector, tol=0.0)
 
             # Check if it is possible add that many number of knots
             if check_num and num[0] > obj.degree - s:
@@ -101,7 +102,7 @@ def insert_knot(obj, param, num, **kwargs):
         # u-direction
         if param[0] is not None and num[0] > 0:
             # Find knot multiplicity
-            s_u = helpers.find_multiplicity(param[0], obj.knotvector_u)
+            s_u = helpers.find_multiplicity(param[0], obj.knotvector_u, tol=0.0)
 
             # Check if it is possible add that many number of knots
             if check_num and num[0] > obj.degree_u - s_u:
@@ -131,7 +132,7 @@ def insert_knot(obj, param, num, **kwargs):
         # v-direction
         if param[1] is not None and num[1] > 0:
             # Find knot multiplicity
-            s_v = helpers.find_multiplicity(param[1], obj.knotvector_v)
+            s_v = helpers.find_multiplicity(param[1], obj.knotvector_v, tol=0.0)
 
             # Check if it is possible add that many number of knots
             if check_num and num[1] > obj.degree_v - s_v:
@@ -162,7 +163,7 @@ def insert_knot(obj, param, num, **kwargs):
         # u-direction
         if param[0] is not None and num[0] > 0:
             # Find knot multiplicity
-            s_u = helpers.find_multiplicity(param[0], obj.knotvector_u)
+            s_u = helpers.find_multiplicity(param[0], obj.knotvector_u, tol=0.0)
 
             # Check if it is possible add that many number of knots
             if check_num and num[0] > obj.degree_u - s_u:
@@ -207,7 +208,7 @@ def insert_knot(obj, param, num, **kwargs):
         # v-direction
         if param[1] is not None and num[1] > 0:
             # Find knot multiplicity
-            s_v = helpers.find_multiplicity(param[1], obj.knotvector_v)
+            s_v = helpers.find_multiplicity(param[1], obj.knotvector_v, tol=0.0)
 
             # Check if it is possible add that many number of knots
             if check_num and num[1] > obj.degree_v - s_v:
@@ -252,7 +253,7 @@ def insert_knot(obj, param, num, **kwargs):
         # w-direction
         if param[2] is not None and num[2] > 0:
             # Find knot multiplicity
-            s_w = helpers.find_multiplicity(param[2], obj.knotvector_w)
+            s_w = helpers.find_multiplicity(param[2], obj.knotvector_w, tol=0.0)
 
             # Check if it is possible add that many number of knots
             if check_num and num[2] > obj.degree_w - s_w:
@@ -350,7 +351,7 @@ def remove_knot(obj, param, num, **kwargs):
     if isinstance(obj, abstract.Curve):
         if param[0] is not None and num[0] > 0:
             # Find knot multiplicity
-            s = helpers.find_multiplicity(param[0], obj.knotvector)
+            s = helpers.find_multiplicity(param[0], obj.knotvector, tol=0.0)
 
             # It is impossible to remove knots if num > s
             if check_num and num[0] > s:
@@ -376,7 +377,7 @@ def remove_knot(obj, param, num, **kwargs):
         # u-direction
         if param[0] is not None and num[0] > 0:
             # Find knot multiplicity
-            s_u = helpers.find_multiplicity(param[0], obj.knotvector_u)
+            s_u = helpers.find_multiplicity(param[0], obj.knotvector_u, tol=0.0)
 
             # Check if it is possible add that many number of knots
             if check_num and num[0] > s_u:
@@ -406,7 +407,7 @@ def remove_knot(obj, param, num, **kwargs):
         # v-direction
         if param[1] is not None and num[1] > 0:
             # Find knot multiplicity
-            s_v = helpers.find_multiplicity(param[1], obj.knotvector_v)
+            s_v = helpers.find_multiplicity(param[1], obj.knotvector_v, tol=0.0)
 
             # Check if it is possible add that many number of knots
             if check_num and num[1] > s_v:
@@ -437,7 +438,7 @@ def remove_knot(obj, param, num, **kwargs):
         # u-direction
         if param[0] is not None and num[0] > 0:
             # Find knot multiplicity
-            s_u = helpers.find_multiplicity(param[0], obj.knotvector_u)
+            s_u = helpers.find_multiplicity(param[0], obj.knotvector_u, tol=0.0)
 
             # Check if it is possible add that many number of knots
             if check_num and num[0] > s_u:
@@ -482,7 +483,7 @@ def remove_knot(obj, param, num, **kwargs):
         # v-direction
         if param[1] is not None and num[1] > 0:
             # Find knot multiplicity
-            s_v = helpers.find_multiplicity(param[1], obj.knotvector_v)
+            s_v = helpers.find_multiplicity(param[1], obj.knotvector_v, tol=0.0)
 
             # Check if it is possible add that many number of knots
             if check_num and num[1] > s_v:
@@ -527,7 +528,7 @@ def remove_knot(obj, param, num, **kwargs):
         # w-direction
         if param[2] is not None and num[2] > 0:
             # Find knot multiplicity
-            s_w = helpers.find_multiplicity(param[2], obj.knotvector_w)
+            s_w = helpers.find_multiplicity(param[2], obj.knotvector_w, tol=0.0)
 
             # Check if it is possible add that many number of knots
             if check_num and num[2] > s_w:
@@ -950,7 +951,7 @@ def split_curve(obj, param, **kwargs):
 
     # Find multiplicity of the knot and define how many times we need to add the knot
     ks = span_func(obj.degree, obj.knotvector, len(obj.ctrlpts), param) - obj.degree + 1
-    s = helpers.find_multiplicity(param, obj.knotvector)
+    s = helpers.find_multiplicity(param, obj.knotvector, tol=0.0)
     r = obj.degree - s  # negative at a knot of multiplicity degree + 1: the shape is already split there
 
     # Create backups of the original curve
@@ -1122,7 +1123,7 @@ def split_surface_u(obj, param, **kwargs):
 
     # Find multiplicity of the knot
     ks = span_func(obj.degree_u, obj.knotvector_u, obj.ctrlpts_size_u, param) - obj.degree_u + 1
-    s = helpers.find_multiplicity(param, obj.knotvector_u)
+    s = helpers.find_multiplicity(param, obj.knotvector_u, tol=0.0)
     r = obj.degree_u - s
 
     # Create backups of the original surface
@@ -1199,7 +1200,7 @@ def split_surface_v(obj, param, **kwargs):
 
     # Find multiplicity of the knot
     ks = span_func(obj.degree_v, obj.knotvector_v, obj.ctrlpts_size_v, param) - obj.degree_v + 1
-    s = helpers.find_multiplicity(param, obj.knotvector_v)
+    s = helpers.find_multiplicity(param, obj.knotvector_v, tol=0.0)
     r = obj.degree_v - s
 
     # Create backups of the original surface
